@@ -79,7 +79,7 @@ def run_lean(s):
         status = "proved" if ok else ("failed" if "error" in (r.stdout + r.stderr) else "unknown")
     except Exception as e:  # noqa
         status, detail = "unknown", f"{type(e).__name__}: {e}"
-    obs = [{"fn": "lean/SumFacts.lean", "clause": "sum_exchange,telescope,prefix_step,accumulate_linear,diff_cumsum", "status": status, "time": time.time() - t, "detail": detail or "accepted by lean 4 + Mathlib"}]
+    obs = [{"fn": "lean/SumFacts.lean", "clause": s.get("clause") or "sum_exchange,telescope,prefix_step,accumulate_linear,diff_cumsum", "status": status, "time": time.time() - t, "detail": detail or "accepted by lean 4 + Mathlib"}]
     return {"sid": s["sid"], "obligations": obs, "paths": 0, "queries": 1, "solver_time": time.time() - t, "engine_errors": [], "covers": {}}
 
 
